@@ -5,7 +5,7 @@
    records_of = what must be delivered, defined from the syntax tree alone (Spec/RdbRecords.v);
    load_all = the model of Header / NextBinEntry* / Footer (Model/Rdb.v). *)
 From RS Require Import Base.Bytes Base.Endian Spec.Crc64 Gen.Crc64 Gen.Rdb Model.Digest Model.Rdb
-  Spec.RdbFormat Spec.RdbRecords Proofs.RdbProofs Proofs.DigestProofs.
+  Spec.RdbFormat Spec.RdbRecords Proofs.RdbProofs Proofs.DigestProofs Proofs.SplitProofs.
 Open Scope N_scope.
 
 (* Every well-formed file of version 1..9 whose hashes stay below the chunk limit: the parser
@@ -17,6 +17,35 @@ Theorem C01_parse_exact : forall limit version us,
   wf_version version -> Forall (wf_unit limit) us ->
   load_all limit (enc_file version us) = Loaded (records_of limit meta0 us).
 Proof. exact (fun limit version us Wv Wu => load_all_exact limit version us Wv Wu eq_refl). Qed.
+
+(* The same without the "below the chunk limit" restriction: EVERY well-formed file of version
+   1..9, hashes of any size included. A hash whose serialisation crosses the limit is delivered
+   as the consecutive chunk records of Spec.key_records (the continuation records carry the
+   key's database, name, type, expiry, idle and freq; C01_hash_records_cover says what those
+   records are in the words of the property). wf_unit2 is wf_unit minus the `unsplit` clause. *)
+Theorem C01_parse_exact_split : forall limit version us,
+  wf_version version -> Forall wf_unit2 us ->
+  load_all limit (enc_file version us) = Loaded (records_of limit meta0 us).
+Proof. exact (fun limit version us Wv Wu => load_all_exact2 limit version us Wv Wu eq_refl). Qed.
+
+(* the records of one hash, split or not: each carries the key's database, name, type, expiry,
+   idle and freq; their serialized bodies, concatenated, are exactly the serialized hash (count
+   header, then every field/value pair in file order); each body is wrapped as a DUMP payload;
+   and there is at least one record *)
+Theorem C01_hash_records_cover : forall limit m k f ps,
+  let rs := key_records limit m k (VHash f ps) in
+  Forall (fun e => e_db e = m_db m /\ e_key e = logical_string k /\ e_type e = 4 /\
+                   e_expire e = m_exp m /\ e_idle e = m_idle m /\ e_freq e = m_freq m) rs /\
+  exists bodies, map e_value rs = map (create_value_dump (n2b 4)) bodies /\
+                 concat bodies = enc_value (VHash f ps) /\ rs <> [].
+Proof. exact hash_records_cover. Qed.
+
+(* the chunking rule is a partition of the pairs: nothing lost, duplicated or reordered, no
+   empty chunk *)
+Theorem C01_chunks_partition : forall limit cap ps,
+  concat (chunks (S (length ps)) limit cap ps) = ps /\
+  Forall (fun c => c <> []) (chunks (S (length ps)) limit cap ps).
+Proof. exact (fun limit cap ps => chunks_partition limit (S (length ps)) cap ps (Nat.le_succ_diag_r _)). Qed.
 
 (* the limit in the source, and the opcode / type constants the model is written with *)
 Theorem C01_constants :
@@ -63,7 +92,26 @@ Example C01_nonvacuous :
   load_all hash_chunk_limit (enc_file 7 us) = Loaded (records_of hash_chunk_limit meta0 us) /\ length (records_of hash_chunk_limit meta0 us) = 3%nat.
 Proof. vm_compute. split; reflexivity. Qed.
 
+(* a file whose hash is split (limit 8: 2 pairs, then 3), with expiry / idle / freq bound to it:
+   the hypotheses of C01_parse_exact_split hold, and the two chunk records both carry the expiry *)
+Example C01_split_nonvacuous :
+  let us := [USelect L6 3; UExpMs 1600000000123; UIdle L6 9; UFreq 200;
+             UKey (SInt8 7) (VHash L14 [(SRaw L6 [x66], SInt16 300); (SRaw L6 [x67], SRaw L6 [x01;x02;x03;x04;x05;x06;x07;x08;x09]);
+                                        (SRaw L6 [x68], SInt8 1); (SRaw L6 [x69], SInt8 2); (SRaw L6 [x6a], SInt8 3)]);
+             UKey (SRaw L6 [x7a]) (VZSet L6 [(SRaw L6 [x6d], ScText [x33;x2e;x35])])] in
+  Forall wf_unit2 us /\ wf_version 9 /\
+  load_all 8 (enc_file 9 us) = Loaded (records_of 8 meta0 us) /\
+  map (fun e => (e_real_count e, e_need_len e, e_expire e)) (records_of 8 meta0 us)
+    = [(2, 1, 1600000000123); (3, 0, 1600000000123); (0, 1, 0)].
+Proof.
+  cbv zeta. split. { repeat constructor; cbn; try lia; try discriminate. }
+  split; [unfold wf_version; lia|]. vm_compute. split; reflexivity.
+Qed.
+
 Print Assumptions C01_parse_exact.
+Print Assumptions C01_parse_exact_split.
+Print Assumptions C01_hash_records_cover.
+Print Assumptions C01_chunks_partition.
 Print Assumptions C01_constants.
 Print Assumptions C01_payload_is_valid_dump.
 Print Assumptions C01_value_bytes_exact.
